@@ -1,19 +1,28 @@
 ------------------------------ MODULE Trace_Cut ------------------------------
 (* Judges observations of real templates (harness/cmd/c15): one record per line of obs.ndjson
-     {id, fmt, pieces:[{n,k,s,v,w,d}], src, outcome, out, errclass}
-   Verdict: a record that was built and run and about which the reference has an opinion must have
-   its output in Envelope(pieces) (Cut.tla PART 1).  Everything else is skipped and counted:
-   build/run errors (no output to judge), pieces/format outside the reference (ref_undefined).
+     {id, fmt, names:[catalogue name...], src, outcome, out, errclass}
+   The pieces are those of the catalogue (Cut!Piece); a record whose logged source is not the
+   concatenation of its pieces, or whose pieces/format the reference has no opinion about, is
+   skipped and counted (ref_undefined), as is a template that was refused with a build error.
+   Verdict (property level): a template the reference has an opinion about and that was built
+   and run must have its output in Envelope(pieces) (Cut.tla PART 1); it must HAVE an output -
+   a panic of the builder/renderer into the host leaves the template without one.
    Diagnostics only (never a verdict): the output of the implementation-shaped model under both
    readings of the end-of-file trigger is compared with the real output (model drift). *)
 EXTENDS Cut, TLC, Json
 
-Echoed(r) == Src(r.pieces) = r.src                    \* the driver rendered exactly the logged pieces
-HasOpinion(r) == Echoed(r) /\ Defined(r.pieces, r.fmt)
-Judged(r) == r.outcome = "ok" /\ HasOpinion(r)
-RecOk(r) == Judged(r) => InEnvelope(r.pieces, r.out)
+Known(r) == Len(r.names) <= 9 /\ \A i \in DOMAIN r.names : r.names[i] \in AllNames
+PiecesOf(r) == IF Known(r) THEN Pieces(r.names, r.fmt) ELSE <<>>
+\* <<has opinion, judged, ok>>
+Verdict(r) ==
+  LET ps == PiecesOf(r) src == Src(ps) cls == Cls(ps)
+      op == Known(r) /\ r.fmt \in {"txt", "html", "md", "js", "css", "json"} /\ src = r.src /\ DefinedX(ps, src, cls, r.fmt)
+      j == op /\ r.outcome = "ok"
+  IN <<op, j, IF j THEN InEnvelopeX(ps, src, cls, r.out) ELSE ~(op /\ r.outcome = "hostpanic")>>
+RecOk(r) == Verdict(r)[3]
 \* signature: the root cause as far as the reference can see it, not the input
-Sig(r) == [fam |-> "cut", cause |-> Cause(r.pieces, r.out), last |-> LastKind(r.pieces)]
+Sig(r) == IF r.outcome = "hostpanic" THEN [fam |-> "cut", cause |-> "host-panic", detail |-> r.errclass]
+          ELSE LET c == Cause(PiecesOf(r), r.out) IN [fam |-> "cut", cause |-> c[1], detail |-> c[2]]
 
 (* ---- record-walk skeleton (spec/lib2/Trace_HTMLEscape.tla) + skip/drift counters ---- *)
 VARIABLES l, nbad, njudged, ndany, ndtext, nnotok, nundef
@@ -21,16 +30,15 @@ Obs == ndJsonDeserialize("obs.ndjson")
 Init == l = 1 /\ nbad = 0 /\ njudged = 0 /\ ndany = 0 /\ ndtext = 0 /\ nnotok = 0 /\ nundef = 0
 Next == /\ l <= Len(Obs) /\ l' = l + 1
         /\ LET r == Obs[l]
-               op == HasOpinion(r)
-               j == op /\ r.outcome = "ok"
-               toks == Lex(r.pieces)
+               v == Verdict(r)
+               toks == Lex(PiecesOf(r))
            IN
-           /\ nbad' = nbad + (IF j /\ ~InEnvelope(r.pieces, r.out) THEN 1 ELSE 0)
-           /\ njudged' = njudged + (IF j THEN 1 ELSE 0)
-           /\ ndany' = ndany + (IF j /\ ModelOutT(toks, TRUE) # r.out THEN 1 ELSE 0)
-           /\ ndtext' = ndtext + (IF j /\ ModelOutT(toks, FALSE) # r.out THEN 1 ELSE 0)
-           /\ nnotok' = nnotok + (IF op /\ r.outcome # "ok" THEN 1 ELSE 0)
-           /\ nundef' = nundef + (IF ~op THEN 1 ELSE 0)
+           /\ nbad' = nbad + (IF v[3] THEN 0 ELSE 1)
+           /\ njudged' = njudged + (IF v[2] THEN 1 ELSE 0)
+           /\ ndany' = ndany + (IF v[2] /\ ModelOutT(toks, TRUE) # r.out THEN 1 ELSE 0)
+           /\ ndtext' = ndtext + (IF v[2] /\ ModelOutT(toks, FALSE) # r.out THEN 1 ELSE 0)
+           /\ nnotok' = nnotok + (IF v[1] /\ ~v[2] THEN 1 ELSE 0)
+           /\ nundef' = nundef + (IF ~v[1] THEN 1 ELSE 0)
 BadIdx == SelectSeq([i \in 1..Len(Obs) |-> i], LAMBDA i : ~RecOk(Obs[i]))
 Done == l = Len(Obs) + 1 =>
           /\ ndJsonSerialize("bad.ndjson",
